@@ -1645,6 +1645,13 @@ class C20:
                 epi.append(("raw_sete", tgt, ("bin", "+", ("ref", lst + (("c", re_.choice(il)),)), ("lit", 1000))))
             elif k == "roundfloat" and fl:
                 epi.append(("raw_sete", tgt, ("bi", "round", ("ref", re_.choice(fl)), (1.5,))))
+        if fl and re_.random() < 0.35 and free_t[len(tgts):]:
+            # Python-level corners that raise TypeError in every configuration: divmod() with the reference on the right
+            # (there is no __rdivmod__), a call expression with an unhashable literal argument (call nodes are hashed)
+            tgt2 = free_t[len(tgts)]
+            src = re_.choice([l for l in fl if l != tgt2] or fl)
+            if src != tgt2:
+                epi.append(("raw_pycorner", tgt2, re_.choice(["rdivmod", "calllist"] if spec.funcs else ["rdivmod"]), src))
         if lists and re_.random() < 0.5:
             # an unhashable subscript on a list/array held by the manager: refs are hashable, so this is a TypeError
             epi.append(("raw_badkey", re_.choice(lists), re_.choice(["list", "list1", "dict", "set"]),
@@ -1699,7 +1706,19 @@ class C20:
             for j, op in enumerate(case.get("epilogue", ())):
                 try:
                     w = ex.world
-                    if op[0] == "raw_badkey":
+                    if op[0] == "raw_pycorner":
+                        _, path, what, src = op
+
+                        def corner():
+                            r = w.build(("ref", tuple(src)))
+                            if what == "rdivmod":
+                                e = divmod(100, r)
+                            else:
+                                e = w.rootref["f"].add3(r, [1.0, 2.0]) + 1
+                            w._assign(tuple(path), e, "item")
+                        tr, exc = run_traced(corner)
+                        ex.count("epilogue_python_corner")
+                    elif op[0] == "raw_badkey":
                         _, path, kk, ast = op
                         key = {"list": [0, 1], "list1": [0], "dict": {}, "set": set([0])}[kk]
 
